@@ -87,12 +87,22 @@ type prepSlot struct {
 	s  slotSpec
 }
 
-func (p *prepSlot) Order() uint32 { return p.s.Order }
+func (p *prepSlot) Order() uint32 { return orderVal(p.s.Order) }
 func (p *prepSlot) Prepare(ctx *base.EntryContext) {
 	log = append(log, "prepare:"+p.id)
 	if p.s.Beh == pPanic {
 		panic("prepare " + p.id)
 	}
+}
+
+// orderVal: the two order values of the chains are the extremes of the type (0 and 2^32-1): "ascending order
+// value" holds for them as for any other pair, and an implementation that computes with order values meets its
+// edge cases
+func orderVal(o uint32) uint32 {
+	if o == 0 {
+		return 0
+	}
+	return 1<<32 - 1
 }
 
 type testRule struct{ id string }
@@ -106,7 +116,7 @@ type checkSlot struct {
 	rule *testRule
 }
 
-func (c *checkSlot) Order() uint32 { return c.s.Order }
+func (c *checkSlot) Order() uint32 { return orderVal(c.s.Order) }
 func (c *checkSlot) Check(ctx *base.EntryContext) *base.TokenResult {
 	log = append(log, "check:"+c.id)
 	switch c.s.Beh {
@@ -139,7 +149,7 @@ type statSlot struct {
 	s  slotSpec
 }
 
-func (t *statSlot) Order() uint32 { return t.s.Order }
+func (t *statSlot) Order() uint32 { return orderVal(t.s.Order) }
 func (t *statSlot) OnEntryPassed(ctx *base.EntryContext) {
 	log = append(log, "passed:"+t.id)
 	if t.s.Beh == sPanicPassed {
